@@ -1654,18 +1654,21 @@ impl SystemState {
         match target.0 {
             0 => todo!("wait target {}", target),
             -1 => {
-                // any child
-                let mut result = None;
-                for (pid, process) in &mut self.processes {
-                    if process.ppid == parent_pid {
-                        let changed = process.state_has_changed();
-                        result = Some((*pid, process));
-                        if changed {
-                            break;
-                        }
-                    }
-                }
-                result
+                // any child: prefer one whose state has changed, then one
+                // that is still alive, so that the caller sees ECHILD only
+                // when no unreaped child remains
+                let children = || {
+                    self.processes
+                        .iter()
+                        .filter(|(_, process)| process.ppid == parent_pid)
+                };
+                let pid = children()
+                    .find(|(_, process)| process.state_has_changed())
+                    .or_else(|| children().find(|(_, process)| process.state().is_alive()))
+                    .or_else(|| children().last())
+                    .map(|(pid, _)| *pid)?;
+                let process = self.processes.get_mut(&pid)?;
+                Some((pid, process))
             }
             raw if raw >= 0 => {
                 let process = self.processes.get_mut(&target)?;
